@@ -122,6 +122,14 @@ def cross(ck, q, *names):
             book_gen(ck, "x_ties_modify_reload", Ops=["cap", "modify", "reload"], Dts=[0], Discipline=False, Kinds=["L"], Prices=[10], Vols=[1, 2],
                      ModPrices=[-1, 10], ModVols=["none", "equal"], MaxOrders=3 if q else 4, MaxOps=5 if q else 6,
                      need=("op_modify", "op_reload", "dt0", "has_trade"), timeout=300 if q else 1500)
+        elif nm == "env_overflow":
+            # the book under an environment whose step carries more instructions than the step size has time units: arrival and
+            # trade times run past the end of the step, the clock then steps back (the environment does that, not the caller),
+            # and orders that arrived "in the future" are cancelled, filled or modified before the clock has caught up
+            env_gen(ck, "x_env_overflow", kind="env", seeds=8 if q else 32, StepSize=1, Ops=["new", "cancel", "step"], Kinds=["L", "M"], Prices=[10],
+                    Vols=[1, 2], MaxSubmits=4, MaxBatch=2, MaxSteps=2 if q else 3, MaxOrders=4,
+                    need=("batch_exceeds_step_size", "has_trade", "multi_step"), timeout=400 if q else 1800)
+            env_traces(ck, "x_rand_env_overflow", {"step_sizes": [1, 2, 3], "max_batch": 12, "p_step": 0.1, "nprices": 4}, files=4 if q else 32, runs=3 if q else 6, ops=200)
         elif nm == "big_clock":
             # large-clock regime (DESIGN.md 3.6): an epoch-like clock (1.7 * 10^18) whose successive values differ by 2^33, so that
             # queue times of resting orders differ in their upper 32 bits; several price levels per side, aggressors sweeping them
@@ -291,7 +299,7 @@ def c03(tier, seed):
     book_gen(ck, "gen_ledger", cfg=GEN, Ops=["cap", "cancel", "modify", "resettv"], Prices=[10, 11], Vols=[1, 3],
              ModPrices=[-1, 10, 11], ModVols=["smaller", "larger"], MaxOrders=3, MaxOps=4 if q else 5,
              need=("has_trade", "multi_trade", "op_resettv", "op_modify"), timeout=300 if q else 1500)
-    cross(ck, q, "reload_resettv", "ties", "off_modify", "big_volumes", "big_clock", "long_queue")
+    cross(ck, q, "reload_resettv", "ties", "off_modify", "big_volumes", "big_clock", "long_queue", "env_overflow")
     prof = {"discipline": True, "audit_every": 10, "w": {"toggle": 0.5, "resettv": 1.5, "modify": 5, "reload": 0.5}}
     ck.traces_stage("rand_ledger", "record_book", prof, files=8 if q else 64, runs=2 if q else 4, ops=300)
     # the ledger of a book that is driven by an environment: partial fills and price-only / volume-only modifications of the same
@@ -329,7 +337,7 @@ def c04(tier, seed):
     book_gen(ck, "gen_requests_off", cfg=GEN, Ops=["cap", "place", "cancel", "modify", "event", "enable"], Trading0=False,
              Prices=[10], Vols=[1], ModPrices=[-1, 10], ModVols=["none", "equal", "larger"], MaxOrders=2, MaxOps=4 if q else 5,
              need=("rejected_order",), timeout=300 if q else 1500)
-    cross(ck, q, "ties", "ties_modify", "split_modify", "top_price", "big_clock")
+    cross(ck, q, "ties", "ties_modify", "split_modify", "top_price", "big_clock", "env_overflow")
     # the same lifecycle through a two-asset market (arrival and end times under the shared clock, set_time between calls)
     mkt_gen(ck, "gen_market_lifecycle", Ticks=(1, 1), Ops=["cap", "create", "place", "cancel", "settime"], Kinds=["L", "M"], Prices=[10], Vols=[1], MaxOrders=2,
             MaxOps=4, need=("ops_on_two_assets", "has_trade"), timeout=300 if q else 1500)
@@ -436,6 +444,11 @@ def c07(tier, seed):
     # snapshots at an epoch-like clock (1.7 * 10^18 + odd: no such time is representable in a double), one time unit per call
     book_gen(ck, "gen_reload_epoch", Ops=["cap", "cancel", "reload"], Prices=[10, 11], Vols=[1, 2], Kinds=["L", "M"], time_offset=1700000000123456789,
              MaxOrders=3, MaxOps=4, need=("op_reload", "has_trade", "cancelled_order"), timeout=300 if q else 1500)
+    # snapshots of levels whose queue order differs from the order of the ids (re-queuing modifications, equal timestamps), then
+    # further placements at the same instant: what a load rebuilds must continue the queue exactly (C05 extends C07 to such histories)
+    cross(ck, q, "ties_modify_reload")
+    prof = {"discipline": False, "p_tie": 0.5, "nprices": 4, "audit_every": 25, "w": {"modify": 5, "reload": 3, "toggle": 0.3}}
+    ck.traces_stage("rand_reload_ties", "record_book", prof, files=4 if q else 32, runs=2 if q else 4, ops=300)
     # the restore path (both sides rebuilt from the Active entries' stored keys) in the implementation-shaped model
     impl_mc(ck, "mc_impl_reload", Ops=["cap", "cancel", "modify", "reload"], Dts=[1], Discipline=True, Prices=[10, 11], Vols=[1, 2],
             ModPrices=[-1, 11], ModVols=["smaller", "larger"], MaxOrders=3, MaxOps=4 if q else 5, timeout=300 if q else 1200)
